@@ -50,12 +50,37 @@ def scales_for(keys):
     return out
 
 
-def make_model(keys, offset=0.0):
+from typing import NamedTuple
+from dataclasses import dataclass
+
+from liesel.goose.pytree import register_dataclass_as_pytree
+
+
+class NTState(NamedTuple):
+    z: object
+    a: object
+    b: object
+    c: object
+    d: object
+
+
+@register_dataclass_as_pytree
+@dataclass
+class DCState:
+    z: object
+    a: object
+    b: object
+    c: object
+    d: object
+
+
+def make_model(keys, offset=0.0, iface="dict"):
     """independent normals (mild coupling) with per-coordinate scales; located at `offset` (posteriors far from the origin relative to
     their width make one-pass variance formulas cancel catastrophically in float32)"""
     sc = {k: jnp.asarray(v) for k, v in scales_for(keys).items()}
 
-    def lp(s):
+    def lp(st_):
+        s = st_ if isinstance(st_, dict) else {k: getattr(st_, k) for k in ("z",) + tuple(SHAPES)}
         tot = -0.5 * s["z"] ** 2
         for k in keys:
             tot = tot - 0.5 * jnp.sum(((s[k] - offset) / sc[k]) ** 2)
@@ -64,7 +89,7 @@ def make_model(keys, offset=0.0):
             tot = tot - 0.05 * jnp.sum((s[ks[0]] - offset) / sc[ks[0]]) * jnp.sum((s[ks[1]] - offset) / sc[ks[1]])
         return tot
 
-    return gs.DictInterface(lp)
+    return {"dict": gs.DictInterface, "namedtuple": gs.NamedTupleInterface, "dataclass": gs.DataclassInterface}[iface](lp)
 
 
 def gen():
@@ -91,13 +116,13 @@ def gen():
         epochs.append([4, 20, 1])
         return {"kernel": draw(st.sampled_from(["nuts", "hmc"])), "diag": draw(st.booleans()), "keys": keys, "epochs": epochs,
                 "other": draw(st.booleans()), "seed": draw(st.integers(0, 2**20)), "perm_seed": draw(st.integers(0, 23)),
-                "offset": draw(st.sampled_from([0.0, 0.0, 30.0, -400.0, 1000.0]))}
+                "offset": draw(st.sampled_from([0.0, 0.0, 30.0, -400.0, 1000.0])), "iface": draw(st.sampled_from(["dict", "dict", "namedtuple", "dataclass"]))}
 
     return g()
 
 
 def run(c, keys):
-    model = make_model(c["keys"], float(c.get("offset", 0.0)))
+    model = make_model(c["keys"], float(c.get("offset", 0.0)), c.get("iface", "dict"))
     if c["kernel"] == "nuts":
         ker = gs.NUTSKernel(keys, initial_step_size=0.05, max_treedepth=5, mm_diag=c["diag"])
     else:
@@ -114,6 +139,8 @@ def run(c, keys):
     st0 = {"z": jnp.zeros((C,), dtype=jnp.float32)}
     for k in SHAPES:
         st0[k] = jnp.zeros((C,) + SHAPES[k], dtype=jnp.float32) + float(c.get("offset", 0.0)) + 0.1 * (1 + jnp.arange(C, dtype=jnp.float32).reshape((C,) + (1,) * len(SHAPES[k])))
+    if c.get("iface", "dict") != "dict":
+        st0 = {"namedtuple": NTState, "dataclass": DCState}[c["iface"]](**st0)
     tracked = list(keys) + (["z"] if c["other"] else [])
     eng = gs.Engine(seeds=jax.random.split(jax.random.PRNGKey(c["seed"]), C), model_states=st0, kernel_sequence=KernelSequence(kernels),
                     epoch_configs=[EpochConfig(EpochType(t), d, k, None) for t, d, k in c["epochs"]], jitted_sample_duration=20,
@@ -191,7 +218,7 @@ def oracle(c):
     return {"nt": bool(nt and n_checked), "cls": [c["kernel"], "diag" if c["diag"] else "dense", f"keys{len(keys)}",
                                                    "sorted" if keys == sorted(keys) else "unsorted", "other" if c["other"] else "alone",
                                                    f"slow{sum(1 for e in c['epochs'] if e[0] == 2)}", "offset" if c.get("offset") else "centred",
-                                                   "few-draws" if few else "many-draws",
+                                                   "few-draws" if few else "many-draws", "iface:" + c.get("iface", "dict"),
                                                    "slow-as-long-as-earlier-fast" if any(e[0] == 2 and any(f[0] in (1, 3) and -(-f[1] // f[2]) == -(-e[1] // e[2]) for f in c["epochs"][:i])
                                                                                        for i, e in enumerate(c["epochs"])) else "slow-lengths-unique"]}
 
